@@ -80,6 +80,7 @@ def units():
     u["dbl_off"] = dict(src=d + "/drv_double.cpp", flags=_lib_flags() + ["-isystem", EIGEN_INC, EIG],
                         mode="full", tier="quick")
     u["high_off"] = dict(src=d + "/drv_high.cpp", flags=_lib_flags(), mode="full", tier="quick")
+    u["cases_high"] = dict(src=d + "/drv_cases_high.cpp", flags=_lib_flags(), mode="full", tier="quick")
     u["cases_off"] = dict(src=d + "/drv_cases.cpp", flags=_lib_flags(), mode="full", tier="quick")
     u["archx_off"] = dict(src=d + "/drv_archx.cpp", flags=_lib_flags(), mode="full", tier="quick")
     u["iter_arch"] = dict(src=d + "/drv_iter_arch.cpp", flags=_lib_flags(), mode="full", tier="quick")
